@@ -12,6 +12,108 @@ import (
 	"golang.org/x/tools/go/types/typeutil"
 )
 
+// ---------------------------------------------------------------------------------------------------------
+// Helpers introduced after the validated baseline (see e1_inline.go) are transparent to the table rules: a reference
+// that sits in such a helper is attributed to the functions that call the helper (transitively), provided the helper
+// is only ever called directly (its address is not taken).  E1 interprets the same helpers in place, so the obligations
+// of the attributed callers see the helper's sinks in their calling context.
+
+type helperInfo struct {
+	callers map[string]bool // root function names with a direct call
+	escapes bool            // referenced other than as the callee of a direct call
+}
+
+func (c *Ctx) helpers() map[*types.Func]*helperInfo {
+	if c.helperTab != nil {
+		return c.helperTab
+	}
+	tab := map[*types.Func]*helperInfo{}
+	for _, fi := range c.P.Funcs {
+		if fi.Decl == nil || fi.Obj == nil || fi.Ctl || baselineFuncs[fi.Name] {
+			continue
+		}
+		tab[fi.Obj] = &helperInfo{callers: map[string]bool{}}
+	}
+	if len(tab) > 0 {
+		for _, fi := range c.P.Funcs {
+			if fi.Body == nil || fi.Parent != nil || fi.Ctl {
+				continue
+			}
+			info := fi.Pkg.TypesInfo
+			callees := map[*ast.Ident]bool{}
+			ast.Inspect(fi.Body, func(n ast.Node) bool {
+				if call, ok := n.(*ast.CallExpr); ok {
+					switch f := unparen(call.Fun).(type) {
+					case *ast.Ident:
+						callees[f] = true
+					case *ast.SelectorExpr:
+						callees[f.Sel] = true
+					case *ast.IndexExpr:
+						switch g := unparen(f.X).(type) {
+						case *ast.Ident:
+							callees[g] = true
+						case *ast.SelectorExpr:
+							callees[g.Sel] = true
+						}
+					}
+				}
+				return true
+			})
+			ast.Inspect(fi.Body, func(n ast.Node) bool {
+				id, ok := n.(*ast.Ident)
+				if !ok {
+					return true
+				}
+				fn, _ := info.Uses[id].(*types.Func)
+				if fn == nil {
+					return true
+				}
+				h := tab[fn.Origin()]
+				if h == nil {
+					return true
+				}
+				if callees[id] {
+					h.callers[fi.Name] = true
+				} else {
+					h.escapes = true
+				}
+				return true
+			})
+		}
+	}
+	c.helperTab = tab
+	return tab
+}
+
+// attributed: the reviewed-table names a reference inside function fi counts for.
+func (c *Ctx) attributed(fi *FuncInfo) []string {
+	root := fi.Root()
+	seen := map[string]bool{}
+	var out []string
+	var rec func(f *FuncInfo, depth int)
+	rec = func(f *FuncInfo, depth int) {
+		if seen[f.Name] {
+			return
+		}
+		seen[f.Name] = true
+		h := c.helpers()[f.Obj]
+		if f.Obj == nil || h == nil || h.escapes || len(h.callers) == 0 || depth > 4 {
+			out = append(out, f.Name)
+			return
+		}
+		for name := range h.callers {
+			if g := c.P.Fn(name); g != nil {
+				rec(g, depth+1)
+			} else {
+				out = append(out, name)
+			}
+		}
+	}
+	rec(root, 0)
+	sort.Strings(out)
+	return out
+}
+
 // RunCallers: every in-scope reference (call or value use) to the function `callee` must sit in one of
 // the functions listed in `allowed` (closures count as their enclosing declaration).
 func RunCallers(c *Ctx, rule, callee string, allowed []string, why string) {
@@ -42,17 +144,22 @@ func RunCallers(c *Ctx, rule, callee string, allowed []string, why string) {
 			if fn == nil || fn.Origin() != target.Obj {
 				return true
 			}
-			seen[fi.Name]++
-			name := fi.Name
 			if fi.Ctl {
+				seen[fi.Name]++
 				return true
 			}
-			good := ok[name]
-			c.R.Obl(Obligation{Rule: rule, Func: name, Construct: "reference to " + callee, Pos: c.P.Position(id.Pos()), Discharged: good, Nontrivial: true,
-				How: []string{"who-may-call table: " + strings.Join(allowed, ", ")}})
-			if !good {
-				c.R.Find(Finding{Rule: rule, Func: name, Construct: "unaccounted reference to " + callee, Pos: c.P.Position(id.Pos()),
-					Msg: fmt.Sprintf("%s is referenced from %s, which is not in the reviewed caller table of rule %s (%s)", callee, name, rule, why)})
+			for _, name := range c.attributed(fi) {
+				seen[name]++
+				good := ok[name]
+				how := []string{"who-may-call table: " + strings.Join(allowed, ", ")}
+				if name != fi.Name {
+					how = append(how, "reference sits in helper "+fi.Name+", attributed to its caller")
+				}
+				c.R.Obl(Obligation{Rule: rule, Func: name, Construct: "reference to " + callee, Pos: c.P.Position(id.Pos()), Discharged: good, Nontrivial: true, How: how})
+				if !good {
+					c.R.Find(Finding{Rule: rule, Func: name, Construct: "unaccounted reference to " + callee, Pos: c.P.Position(id.Pos()),
+						Msg: fmt.Sprintf("%s is referenced from %s, which is not in the reviewed caller table of rule %s (%s)", callee, name, rule, why)})
+				}
 			}
 			return true
 		})
@@ -212,12 +319,13 @@ func RunFieldWriters(c *Ctx, rule, pkg, typ, field string, allowed []string, why
 				return
 			}
 			n++
-			name := fi.Root().Name
-			good := ok[name]
-			c.R.Obl(Obligation{Rule: rule, Func: fi.Name, Construct: "write to " + typ + "." + field, Pos: c.P.Position(sel.Pos()), Discharged: good, Nontrivial: true, How: []string{"writer table: " + strings.Join(allowed, ", ")}})
-			if !good {
-				c.R.Find(Finding{Rule: rule, Func: fi.Name, Construct: "unaccounted write to " + typ + "." + field, Pos: c.P.Position(sel.Pos()),
-					Msg: fmt.Sprintf("%s.%s.%s is written in %s, which is not in the reviewed writer table (%s)", pkg, typ, field, fi.Name, why)})
+			for _, name := range c.attributed(fi) {
+				good := ok[name]
+				c.R.Obl(Obligation{Rule: rule, Func: name, Construct: "write to " + typ + "." + field, Pos: c.P.Position(sel.Pos()), Discharged: good, Nontrivial: true, How: []string{"writer table: " + strings.Join(allowed, ", ")}})
+				if !good {
+					c.R.Find(Finding{Rule: rule, Func: name, Construct: "unaccounted write to " + typ + "." + field, Pos: c.P.Position(sel.Pos()),
+						Msg: fmt.Sprintf("%s.%s.%s is written in %s, which is not in the reviewed writer table (%s)", pkg, typ, field, name, why)})
+				}
 			}
 		}
 		ast.Inspect(fi.Body, func(nd ast.Node) bool {
@@ -341,6 +449,7 @@ func RunConstAtLeast(c *Ctx, rule, pkg, name string, min int64) {
 }
 
 // RunAllowedCallees: the listed functions may call only callees on the allow-list (qualified function name, or bare method name).
+// A call of a helper introduced after the baseline is followed: the helper's own callees are held to the same list.
 func RunAllowedCallees(c *Ctx, rule string, funcs, allowed []string, why string) {
 	ok := map[string]bool{}
 	for _, a := range allowed {
@@ -352,27 +461,50 @@ func RunAllowedCallees(c *Ctx, rule string, funcs, allowed []string, why string)
 			c.R.Fail("anchor-unresolved", name, rule, "function not found: re-point the table")
 			continue
 		}
-		tb := &termBuilder{info: fi.Pkg.TypesInfo, inl: map[types.Object]ast.Expr{}, fset: c.P.Fset}
-		ast.Inspect(fi.Body, func(n ast.Node) bool {
-			call, isCall := n.(*ast.CallExpr)
-			if !isCall {
+		visited := map[*FuncInfo]bool{}
+		var scan func(cur *FuncInfo, depth int)
+		scan = func(cur *FuncInfo, depth int) {
+			if visited[cur] {
+				return
+			}
+			visited[cur] = true
+			info := cur.Pkg.TypesInfo
+			tb := &termBuilder{info: info, inl: map[types.Object]ast.Expr{}, fset: c.P.Fset}
+			ast.Inspect(cur.Body, func(n ast.Node) bool {
+				call, isCall := n.(*ast.CallExpr)
+				if !isCall {
+					return true
+				}
+				if tv, has := info.Types[call.Fun]; has && tv.IsType() {
+					return true
+				}
+				t := tb.callTerm(call)
+				nm := t.S
+				if t.K == "dyn" {
+					nm = "dynamic:" + t.A[0].String()
+				}
+				good := ok[nm]
+				if !good && depth < 4 {
+					if fn, _ := typeutil.Callee(info, call).(*types.Func); fn != nil {
+						if h := c.helpers()[fn.Origin()]; h != nil {
+							for _, g := range c.P.Funcs {
+								if g.Obj == fn.Origin() && g.Body != nil {
+									c.R.Obl(Obligation{Rule: rule, Func: name, Construct: "call " + nm + " (helper, followed)", Pos: c.P.Position(call.Pos()), Discharged: true, Nontrivial: true})
+									scan(g, depth+1)
+									return true
+								}
+							}
+						}
+					}
+				}
+				c.R.Obl(Obligation{Rule: rule, Func: name, Construct: "call " + nm, Pos: c.P.Position(call.Pos()), Discharged: good, Nontrivial: true})
+				if !good {
+					c.R.Find(Finding{Rule: rule, Func: name, Construct: "call of " + nm + " outside the allow-list", Pos: c.P.Position(call.Pos()),
+						Msg: fmt.Sprintf("%s calls %s, which is not on the reviewed allow-list of rule %s (%s)", cur.Name, nm, rule, why)})
+				}
 				return true
-			}
-			if tv, has := fi.Pkg.TypesInfo.Types[call.Fun]; has && tv.IsType() {
-				return true
-			}
-			t := tb.callTerm(call)
-			nm := t.S
-			if t.K == "dyn" {
-				nm = "dynamic:" + t.A[0].String()
-			}
-			good := ok[nm]
-			c.R.Obl(Obligation{Rule: rule, Func: name, Construct: "call " + nm, Pos: c.P.Position(call.Pos()), Discharged: good, Nontrivial: true})
-			if !good {
-				c.R.Find(Finding{Rule: rule, Func: name, Construct: "call of " + nm + " outside the allow-list", Pos: c.P.Position(call.Pos()),
-					Msg: fmt.Sprintf("%s calls %s, which is not on the reviewed allow-list of rule %s (%s)", name, nm, rule, why)})
-			}
-			return true
-		})
+			})
+		}
+		scan(fi, 0)
 	}
 }
